@@ -364,6 +364,23 @@ func (c10) Gen(tier string, seed int64) []fw.Unit {
 			add("decorated", q)
 		}
 	}
+	for _, fd := range foreignDigitStrings() {
+		hb := []byte(fd)
+		for _, fam := range []string{"codabar", "ean", "code128", "code128nocs", "datamatrix"} {
+			add("foreign-digits", Req{Fam: fam, S: hb})
+		}
+		add("foreign-digits", Req{Fam: "codabar", S: []byte("A" + fd + "B")})
+		for a := int64(0); a < 2; a++ {
+			add("foreign-digits", Req{Fam: "2of5", S: hb, I: []int64{a}})
+			add("foreign-digits", Req{Fam: "code39", S: hb, I: []int64{a, a}})
+			add("foreign-digits", Req{Fam: "code93", S: hb, I: []int64{a, 1 - a}})
+		}
+		for mode := int64(0); mode < 4; mode++ {
+			add("foreign-digits", Req{Fam: "qr", S: hb, I: []int64{int64(r.Intn(4)), mode}})
+		}
+		add("foreign-digits", Req{Fam: "pdf417", S: hb, I: []int64{int64(r.Intn(9))}})
+		add("foreign-digits", Req{Fam: "aztec", S: hb, I: []int64{33, 0}})
+	}
 	// all 256 PDF417 level bytes
 	for l := int64(0); l < 256; l++ {
 		add("pdf-level-byte", Req{Fam: "pdf417", S: []byte("LEVEL"), I: []int64{l}})
@@ -517,13 +534,19 @@ func (c10) Gen(tier string, seed int64) []fw.Unit {
 	add("pdf-over", Req{Fam: "pdf417", S: randBytes(r, 5000, highAB), I: []int64{0}})
 	add("pdf-over", Req{Fam: "pdf417", S: randBytes(r, 5000, printAB), I: []int64{8}})
 	// 1D lengths 0/1/long
-	for _, n := range []int{0, 1, 2, 3, 100, 1000} {
+	for _, n := range []int{0, 1, 2, 3, 100, 1000, 4096, 4097, 4098, 5039, 5040, 5041, 10000, 20000} {
 		add("1d-length", Req{Fam: "codabar", S: append(append([]byte("A"), randBytes(r, n, []byte("0123456789-$:/.+"))...), 'B')})
 		add("1d-length", Req{Fam: "2of5", S: randBytes(r, n, digitsAB), I: []int64{0}})
 		add("1d-length", Req{Fam: "2of5", S: randBytes(r, n, digitsAB), I: []int64{1}})
 		add("1d-length", Req{Fam: "code39", S: randBytes(r, n, []byte(refC39)), I: []int64{1, 0}})
 		add("1d-length", Req{Fam: "code93", S: randBytes(r, n, asciiAB), I: []int64{1, 1}})
 		add("1d-length", Req{Fam: "ean", S: randBytes(r, n, digitsAB)})
+	}
+	// representability does not depend on the colour scheme: degenerate schemes
+	for i := 0; i < 20*len(families); i++ {
+		q := randomValidReq(r, families[i%len(families)], 0)
+		q.Scheme = degenerateSchemeBase + int64(i/len(families))
+		us = append(us, q.Unit("accept", "degenerate-scheme"))
 	}
 	// random valid requests: everything must be accepted
 	nv := 2000
